@@ -1,0 +1,91 @@
+//go:build verif
+
+// Contracts for package geo (read by /verif/gocv; comment-only effect with the verif tag off, apart
+// from the ghost lemma functions, which are never called).
+
+package geo
+
+// ---------------------------------------------------------------------------
+// C18: rectangle predicates and the scaling of coordinates to 32-bit cells
+// ---------------------------------------------------------------------------
+
+// Proof obligations are written as calls of verifAssert(cond): its precondition is cond.
+//@ func verifAssert
+//@   requires cond
+func verifAssert(cond bool) {}
+
+// Two rectangles that share a point intersect (so the cell recursion never prunes a cell that
+// contains a point of the query box), and intersecting rectangles do share a point.
+//@ func verifLemmaRectIntersects
+//@   props C18
+//@   mode bv
+//@   ensures true
+func verifLemmaRectIntersects(aMinX, aMinY, aMaxX, aMaxY, bMinX, bMinY, bMaxX, bMaxY, x, y float64) {
+	if aMinX <= x && x <= aMaxX && aMinY <= y && y <= aMaxY && bMinX <= x && x <= bMaxX && bMinY <= y && y <= bMaxY {
+		verifAssert(RectIntersects(aMinX, aMinY, aMaxX, aMaxY, bMinX, bMinY, bMaxX, bMaxY))
+	}
+	if aMinX <= aMaxX && aMinY <= aMaxY && bMinX <= bMaxX && bMinY <= bMaxY && RectIntersects(aMinX, aMinY, aMaxX, aMaxY, bMinX, bMinY, bMaxX, bMaxY) {
+		// the corner max(aMin, bMin) lies in both
+		cx, cy := aMinX, aMinY
+		if bMinX > cx {
+			cx = bMinX
+		}
+		if bMinY > cy {
+			cy = bMinY
+		}
+		verifAssert(aMinX <= cx && cx <= aMaxX && bMinX <= cx && cx <= bMaxX && aMinY <= cy && cy <= aMaxY && bMinY <= cy && cy <= bMaxY)
+	}
+}
+
+// A rectangle reported as within another has all its points in the other (cells reported "within"
+// are taken without the per-point filter).
+//@ func verifLemmaRectWithin
+//@   props C18
+//@   mode bv
+//@   ensures true
+func verifLemmaRectWithin(aMinX, aMinY, aMaxX, aMaxY, bMinX, bMinY, bMaxX, bMaxY, x, y float64) {
+	if RectWithin(aMinX, aMinY, aMaxX, aMaxY, bMinX, bMinY, bMaxX, bMaxY) && aMinX <= x && x <= aMaxX && aMinY <= y && y <= aMaxY {
+		verifAssert(bMinX <= x && x <= bMaxX && bMinY <= y && y <= bMaxY)
+	}
+}
+
+// The per-point filter accepts every point inside the box and rejects every point that is outside
+// by more than the tolerance.
+//@ func verifLemmaBoundingBoxContains
+//@   props C18
+//@   mode bv
+//@   ensures true
+func verifLemmaBoundingBoxContains(lon, lat, minLon, minLat, maxLon, maxLat float64) {
+	if -180 <= minLon && minLon <= maxLon && maxLon <= 180 && -90 <= minLat && minLat <= maxLat && maxLat <= 90 && -180 <= lon && lon <= 180 && -90 <= lat && lat <= 90 {
+		if minLon <= lon && lon <= maxLon && minLat <= lat && lat <= maxLat {
+			verifAssert(BoundingBoxContains(lon, lat, minLon, minLat, maxLon, maxLat))
+		}
+		if lon < minLon-0.00001 || lon > maxLon+0.00001 || lat < minLat-0.00001 || lat > maxLat+0.00001 {
+			verifAssert(!BoundingBoxContains(lon, lat, minLon, minLat, maxLon, maxLat))
+		}
+	}
+}
+
+// Scaling a coordinate to its 32-bit cell number is monotone and stays below 2^32 (what
+// numeric.Interleave needs) on the valid coordinate range.
+//@ func verifLemmaScaleLon
+//@   props C18
+//@   mode bv
+//@   ensures true
+func verifLemmaScaleLon(a, b float64) {
+	if -180 <= a && a <= b && b <= 180 {
+		verifAssert(scaleLon(a) <= scaleLon(b))
+		verifAssert(scaleLon(b) <= 0xFFFFFFFF)
+	}
+}
+
+//@ func verifLemmaScaleLat
+//@   props C18
+//@   mode bv
+//@   ensures true
+func verifLemmaScaleLat(a, b float64) {
+	if -90 <= a && a <= b && b <= 90 {
+		verifAssert(scaleLat(a) <= scaleLat(b))
+		verifAssert(scaleLat(b) <= 0xFFFFFFFF)
+	}
+}
